@@ -38,7 +38,9 @@ def nontrivial(case, out):
 
 def corpus():
     return ["C 0;I 0;U 0 0 1;R 0 0 0 3 1,2 0 -;E 0 0 0;D 0 0;D 0 0;T 0;I 0",
-            "C 0;U 0 0 1;R 0 0 0 1 1 0 -;T 0;I 0;U 0 0 1;U 0 0 1;R 0 5 0 1 1 0 -;D 0 5;T 0;T 0"]
+            "C 0;U 0 0 1;R 0 0 0 1 1 0 -;T 0;I 0;U 0 0 1;U 0 0 1;R 0 5 0 1 1 0 -;D 0 5;T 0;T 0"] + [
+            # Peer Down with each kind of reason octet: down means down, a second one is a lifecycle violation, Peer Up is accepted again
+            f"C 0;I 0;U 0 0 1;R 0 0 0 3 1 0 -;D 0 0 {r};D 0 0 {r};R 0 0 0 3 2 0 -;U 0 0 1;R 0 0 0 3 2 0 -" for r in (0, 1, 2, 3, 4, 6, 9, 255)]
 
 
 ENGINES = [{"name": "pipe", "gen": gen, "corpus": corpus, "nontrivial": nontrivial, "classify": pipegen.classify, "shards": 12}]
